@@ -29,15 +29,30 @@ CONSTANTS
 
 VARIABLES
   n, E, C,
+  es,             \* the edges as a sequence: raw_edges() order of the built graph (decides the order
+                  \* in which petgraph walks the children of a function: most recently added first)
   cnt, readyQ, readyTx, doneQ, doneTx, rem,
   held, dropped, yielded,
   wDone, wReady, woken, last, streamDropped,
   is, sigChan, sigSent, afterSig, intSeen
 
-vars == <<n, E, C, cnt, readyQ, readyTx, doneQ, doneTx, rem, held, dropped, yielded,
+vars == <<n, E, C, es, cnt, readyQ, readyTx, doneQ, doneTx, rem, held, dropped, yielded,
           wDone, wReady, woken, last, streamDropped, is, sigChan, sigSent, afterSig, intSeen>>
 
 Children(f) == IF Order = "fwd" THEN Succs(E, f) ELSE Preds(E, f)
+(* children of f in the order graph_structure.children(f) yields them *)
+KidSeq(f) ==
+  LET mine(i) == IF Order = "fwd" THEN es[i][1] = f ELSE es[i][2] = f
+      kid(i)  == IF Order = "fwd" THEN es[i][2] ELSE es[i][1]
+      F[k \in 0..Len(es)] == IF k = 0 THEN <<>>
+                             ELSE LET p == F[k-1] IN IF mine(k) THEN <<kid(k)>> \o p ELSE p
+  IN F[Len(es)]
+SeqOfPairs(S) ==
+  LET F[T \in SUBSET S] ==
+        IF T = {} THEN <<>>
+        ELSE LET m == CHOOSE x \in T : \A y \in T : x[1] < y[1] \/ (x[1] = y[1] /\ x[2] <= y[2])
+             IN  <<m>> \o F[T \ {m}]
+  IN F[S]
 Capacity == Max(1, n)
 Perms(S) == { p \in [1..Cardinality(S) -> S] : \A i, j \in DOMAIN p : i # j => p[i] # p[j] }
 AllDags(k) == SUBSET { <<a, b>> \in (1..k) \X (1..k) : a < b }
@@ -46,6 +61,7 @@ Init ==
   /\ n \in 0..N
   /\ E \in AllDags(n)
   /\ C = Closure(n, E)
+  /\ es = SeqOfPairs(E)
   /\ cnt = [f \in 1..n |-> IF Order = "fwd" THEN Cardinality(Preds(E, f)) ELSE Cardinality(Succs(E, f))]
   /\ \E p \in Perms({ f \in 1..n : cnt[f] = 0 }) : readyQ = p
   /\ readyTx = (n > 0) /\ doneTx = (n > 0) /\ doneQ = <<>> /\ rem = n
@@ -59,20 +75,17 @@ Init ==
 (* current state: what it returns and the state it leaves.                  *)
 (***************************************************************************)
 (* draining the done channel: k ids processed, one after another *)
-DrainStep(s) ==      \* s = [cnt, readyQ, doneQ, w (woken by own send)]
+DrainStep(s) ==      \* s = [cnt, readyQ, doneQ, sent (a try_send succeeded)]
   LET f    == Head(s.doneQ)
-      kids == Children(f)
-      cnt2 == [c \in 1..n |-> IF c \in kids THEN s.cnt[c] - 1 ELSE s.cnt[c]]
-      rel  == { c \in kids : cnt2[c] = 0 }
-      \* children are visited in some order; each released one is try_sent while the sender is held
-      ord  == CHOOSE p \in Perms(rel) : TRUE
-      q2   == IF readyTx THEN
-                LET F[i \in 0..Len(ord)] ==
-                      IF i = 0 THEN s.readyQ
-                      ELSE LET p == F[i-1] IN IF Len(p) < Capacity THEN Append(p, ord[i]) ELSE p
-                IN F[Len(ord)]
-              ELSE s.readyQ
-  IN [cnt |-> cnt2, readyQ |-> q2, doneQ |-> Tail(s.doneQ), sent |-> s.sent \/ q2 # s.readyQ]
+      kids == KidSeq(f)
+      \* for each child in walk order: decrement, and try_send it when it reaches 0
+      F[i \in 0..Len(kids)] ==
+        IF i = 0 THEN [cnt |-> s.cnt, q |-> s.readyQ]
+        ELSE LET p == F[i-1]  c == kids[i]  v == p.cnt[c] - 1 IN
+             [cnt |-> [p.cnt EXCEPT ![c] = v],
+              q   |-> IF v = 0 /\ readyTx /\ Len(p.q) < Capacity THEN Append(p.q, c) ELSE p.q]
+      r == F[Len(kids)]
+  IN [cnt |-> r.cnt, readyQ |-> r.q, doneQ |-> Tail(s.doneQ), sent |-> s.sent \/ r.q # s.readyQ]
 
 Raw ==
   LET s0 == [cnt |-> cnt, readyQ |-> readyQ, doneQ |-> doneQ, sent |-> FALSE]
@@ -123,7 +136,7 @@ Poll ==
              /\ afterSig' = IF sigSent THEN afterSig + 1 ELSE afterSig
         ELSE UNCHANGED <<yielded, held, afterSig>>
      /\ intSeen' = (intSeen \/ r.out \in {"int_item", "int_none"})
-  /\ UNCHANGED <<n, E, C, dropped, streamDropped, sigSent>>
+  /\ UNCHANGED <<n, E, C, es, dropped, streamDropped, sigSent>>
 
 (* FnRef::drop: try_send the id, then the sender clone goes away *)
 DropRef(f) ==
@@ -137,19 +150,19 @@ DropRef(f) ==
      /\ IF (sent \/ closed) /\ wDone /\ ~streamDropped
         THEN woken' = TRUE /\ wDone' = FALSE
         ELSE UNCHANGED <<woken, wDone>>
-  /\ UNCHANGED <<n, E, C, cnt, readyQ, readyTx, doneTx, rem, yielded, wReady, last, streamDropped,
+  /\ UNCHANGED <<n, E, C, es, cnt, readyQ, readyTx, doneTx, rem, yielded, wReady, last, streamDropped,
                  is, sigChan, sigSent, afterSig, intSeen>>
 
 DropStream ==
   /\ DropStreamEarly /\ ~streamDropped /\ last # "end"
   /\ streamDropped' = TRUE
-  /\ UNCHANGED <<n, E, C, cnt, readyQ, readyTx, doneQ, doneTx, rem, held, dropped, yielded, wDone, wReady, woken,
+  /\ UNCHANGED <<n, E, C, es, cnt, readyQ, readyTx, doneQ, doneTx, rem, held, dropped, yielded, wDone, wReady, woken,
                  last, is, sigChan, sigSent, afterSig, intSeen>>
 
 EnvSignal ==
   /\ Wrapped /\ HasChannel(Strategy) /\ ~sigSent /\ ~PreSig /\ last # "end" /\ ~streamDropped
   /\ sigSent' = TRUE /\ sigChan' = TRUE
-  /\ UNCHANGED <<n, E, C, cnt, readyQ, readyTx, doneQ, doneTx, rem, held, dropped, yielded, wDone, wReady, woken,
+  /\ UNCHANGED <<n, E, C, es, cnt, readyQ, readyTx, doneQ, doneTx, rem, held, dropped, yielded, wDone, wReady, woken,
                  last, streamDropped, is, afterSig, intSeen>>
 
 Next == Poll \/ DropStream \/ EnvSignal \/ \E f \in 1..N : DropRef(f)
